@@ -412,6 +412,9 @@ func returnsFresh(fn *ssa.Function) bool {
 }
 
 func namedOfType(t types.Type) *types.Named {
+	if t == nil {
+		return nil
+	}
 	if p, ok := t.Underlying().(*types.Pointer); ok {
 		t = p.Elem()
 	}
